@@ -41,7 +41,7 @@ import (
 
 // ------------------------------------------------------------------ alphabets
 
-var c14Alpha = []rune{'a', 0x00E9, 0x4F60, 0x1F600, 0x0301} // a é 你 😀 combining acute
+var c14Alpha = []rune{'a', 0x00E9, 0x4F60, 0x1F600, 0x0301, 0xFFFD} // a é 你 😀 combining acute, the replacement character (a character like any other)
 var c14Sym = []rune{'x', 0x4F60, '{', '}', '#', '+', '.', '2', '0', '%', 'E'}
 
 const c14ArgNum = -3.14159
